@@ -94,6 +94,10 @@ def build_ctx(cp: dict, grid: str, variant: int = 0):
         "queue_budget": cp["queue"], "node_budget": cp["nb"] / 8.0, "radius_cap": cp["radius"],
         "iter_cap": cp["iter"], "iter_cap_layers": cp["layers"],
     }
+    if variant in (1, 4):      # leave out settings that equal the documented defaults (configs/config.yaml, t1.py)
+        for key, dflt in (("radius_cap", 4), ("iter_cap", 50), ("iter_cap_layers", 50), ("node_budget", 1.5)):
+            if t1cfg[key] == dflt:
+                del t1cfg[key]
     if cp["relax"] != NOCAP:
         t1cfg["relax_cap"] = cp["relax"]
     elif variant % 2:
@@ -384,16 +388,16 @@ def families(quick: bool) -> List[Tuple[str, str]]:
         fam.append(("topo4", tup(product("dyadic", f"Dress(AllShapes(4, 2), {S(W1, WMH, W3)}, {{1}})", "{{1}, {1, 2}, {2, 4}, {3}}", "{{}, {4}}", caps(nb=(12,), fl=(F0, F8))))))
         fam.append(("weights", tup(
             product("dyadic", f"Dress({shapes()}, {S(W1, WMH)}, {{1, 2}})", "{{1}, {1, 2}}", "{{}}", caps(fl=(F0, F8), nb=(12, 64))),
-            product("dyadic", f"DressOne({shapes()}, {allw}, {{1, 2, 3}})", "(SUBSET (1..4)) \\ {{}}", "{{}}", caps(fl=(F0, F8), nb=(8, 12, 64), rad=(2, 4))))))
+            product("dyadic", f"DressOne({shapes()}, {allw}, {{1, 2, 3}})", "{{1}, {1, 2}, {2, 4}, {3}, {1, 2, 3, 4}}", "{{}}", caps(fl=(F0, F8), nb=(8, 12, 64), rad=(2, 4))))))
         fam.append(("caps1", tup(product("dyadic", f"Dress({shapes()}, {S(W1, WMH)}, {{1}})", "{{1}, {1, 2}, {2, 3}}", "{{}}", cap_sweeps((F0, F8))))))
         fam.append(("caps2", tup(product("dyadic", f"Dress({shapes(['diamond_back', 'five', 'shortcut', 'par_self'])}, {S(W1)}, {{1}})", "{{1}, {1, 2}}", "{{}}",
                                      caps(rad=RAD, it=(1, 50), ly=(0, 2, 50), si=SIT, q=QB, sp=SPO, rx=RLX, nb=(8, 12, 64))))))
         fam.append(("perf", tup(
             product("dyadic", f"Dress({shapes()}, {S(W1, WMH)}, {{1}})", "{{1}, {2, 3}, {1, 2, 3}}", "{{}, {1, 4}}",
-                    caps(q=(3, 24), fr=(0, 1, 2, 3), vi=(0, 1, 2, 3), de=(0, 1, 2, 3), nb=(12, 64))),
+                    caps(q=(3, 24), fr=(0, 1, 2), vi=(0, 1, 2), de=(0, 1, 2))),
             product("dyadic", f"Dress(AllShapes(3, 2), {S(W1)}, {{1}})", "SUBSET (1..3)", "SUBSET (1..3)",
                     union(caps(), caps(de=(1, 2), fr=(0, 1, 2)), caps(q=(1, 2)))))))
-        fam.append(("five", tup(product("five", f"DressOne({shapes()}, {S(W1, WMH, WH, WM1)}, {{1, 2, 3, 4}})", "{{1}, {1, 2}, {2, 4}}", "{{}, {3}}",
+        fam.append(("five", tup(product("five", f"DressOne({shapes()}, {S(W1, WMH, WH, WM1)}, {{1, 2, 3, 4}})", "{{1}, {2, 4}}", "{{}}",
                                     union(caps(fl=(F0, F8), nb=(8, 12, 64), rad=(1, 2, 4)), caps(md=(ATT,), nb=(8, 12, 64), rad=(1, 2, 4)),
                                           caps(md=(EXP, ATT), q=QB, rx=(NOCAP, 1, 2)))))))
     return fam
@@ -465,6 +469,14 @@ def check(run) -> None:
         if worlds:
             run.sample({"world": worlds[len(worlds) // 2]}, cap=3)
     run.clauses["SpreadRule.independent_recursion_worlds"] = applicable
+    # observation outside the quantifier (the property ranges over graphs that are in the store)
+    st, text = build_store([], [])
+    call_t1(st, ["g:not-there"], build_ctx({"mode": "exp_floor", "floor": [0, 1], "queue": 24, "nb": 12, "radius": 4, "iter": 50,
+                                            "layers": 50, "relax": NOCAP, "fr": 0, "vis": 0, "ded": 0, "siter": NOCAP,
+                                            "spops": NOCAP}, "dyadic"), text)
+    if "g:not-there" in st._graphs:
+        run.notes.append("naming an active graph id that is not in the store makes t1_propagate create an empty graph under that id "
+                         "(get_graph = ensure); outside C12's quantifier (graphs of the store), recorded as an observation only")
     run.exhaustive = True
     run.constants = {"families": [n for n, _ in families(q)], "N": 4, "D": GRID_D}
     from . import c12_traces
